@@ -5,8 +5,32 @@
  * its last page are still zero). */
 #include <plibsys.h>
 #include <stdint.h>
+#include <errno.h>
+#include <unistd.h>
 #include "vtrace.h"
 
+#include <sys/mman.h>
+/* every mapping of a shared segment is followed by an inaccessible page: an access behind the last page of the segment faults
+ * (behind the segment but inside its last page it is seen by the "tail" check below) */
+void *__real_mmap (void *, size_t, int, int, int, off_t); int __real_munmap (void *, size_t);
+static struct { void *a; size_t total; } gmap[64];
+void *__wrap_mmap (void *addr, size_t len, int prot, int flags, int fd, off_t off) {
+	long pg = sysconf (_SC_PAGESIZE); int i;
+	if (fd >= 0 && (flags & MAP_SHARED) && addr == NULL && len > 0) {
+		size_t total = (len + (size_t) pg - 1) / (size_t) pg * (size_t) pg + (size_t) pg; char *base = __real_mmap (NULL, total, PROT_NONE, MAP_PRIVATE | MAP_ANONYMOUS, -1, 0); void *r;
+		if (base == MAP_FAILED) return MAP_FAILED;
+		r = __real_mmap (base, len, prot, flags | MAP_FIXED, fd, off);
+		if (r == MAP_FAILED) { int e = errno; __real_munmap (base, total); errno = e; return MAP_FAILED; }
+		for (i = 0; i < 64; i++) if (!gmap[i].a) { gmap[i].a = r; gmap[i].total = total; break; }
+		return r;
+	}
+	return __real_mmap (addr, len, prot, flags, fd, off);
+}
+int __wrap_munmap (void *a, size_t len) {
+	int i;
+	for (i = 0; i < 64; i++) if (gmap[i].a == a) { size_t t = gmap[i].total; gmap[i].a = NULL; (void) len; return __real_munmap (a, t); }
+	return __real_munmap (a, len);
+}
 #define MAXH 8
 static PShmBuffer *hb[MAXH];
 static PShm *raw; static char name[128]; static const char *prefix;
